@@ -27,7 +27,7 @@ ASSUMPTIONS = [
     "path-typed values are spelled absolute (jsonargparse keeps relative spellings by design, so a config saved into another directory is not expected to re-parse)",
     "fsspec / URL targets are off (default)",
 ]
-PROBES = ["save-ok-in-place-after-edits", "save-refused-overwrite", "save-failed-config-cause", "save-ok-multifile-with-subfiles", "save-ok-reparsed", "fault-in-save", "torn-write", "sweep-site"]
+PROBES = ["destination-names-collide", "save-ok-in-place-after-edits", "save-refused-overwrite", "save-failed-config-cause", "save-ok-multifile-with-subfiles", "save-ok-reparsed", "fault-in-save", "torn-write", "sweep-site"]
 ANCHOR_FILES = ("_core", "_util")
 NO_SHRINK = ("save", "save/*", "parser/opts", "parser/opts/*", "world/dirs")
 SHRINK_DICTS = ("world/files", "world/env", "world/symlinks", "world/dirmodes", "save/pre")
@@ -73,6 +73,7 @@ def generate(rng, tier):
         feats.add(rng.choice(["inner1", "inner2", "dct", "obj"]))
     spec = parser_spec(feats)
     files = {"data/pa.txt": "payload\n"}
+    collide = False
     main = {"a": rng.randint(2, 99), "s": "v%d" % rng.randint(1, 99)}
     if "req" in feats:
         main["req"] = rng.randint(1, 9)
@@ -99,8 +100,15 @@ def generate(rng, tier):
                 else:
                     sub["deep"] = dp
             if rng.random() < 0.8:
-                files["src/B/%s.%s" % (n, ext)] = json.dumps(sub)
-                main[n] = "B/%s.%s" % (n, ext)
+                if n == "inner2" and isinstance(main.get("inner1"), str) and rng.random() < 0.15:
+                    # two sub-configs with the SAME basename from different directories: a multi-file save
+                    # writes both under one name in the target directory
+                    files["src/B2/inner1.yaml"] = json.dumps(sub)
+                    main[n] = "B2/inner1.yaml"
+                    collide = True
+                else:
+                    files["src/B/%s.%s" % (n, ext)] = json.dumps(sub)
+                    main[n] = "B/%s.%s" % (n, ext)
             else:
                 main[n] = sub
     if "dct" in feats:
@@ -158,8 +166,12 @@ def generate(rng, tier):
         mut.append(rng.choice(choices))
     # state of the storage before the save
     target_name = rng.choice(["saved.yaml", "saved.yaml", "saved.json", "cfg"])
+    subnames = [os.path.basename(v) for v in main.values() if isinstance(v, str) and v.startswith(("B/", "B2/"))]
+    if subnames and rng.random() < 0.08:
+        target_name = rng.choice(subnames)  # the main file is saved under the name one of its sub-files will get
+        collide = True
     pre = {}
-    names = [target_name] + [os.path.basename(v) for v in main.values() if isinstance(v, str) and v.startswith("B/")] + ["pa.txt"] + (["deep.yaml"] if "src/B/C/deep.yaml" in files else [])
+    names = list(dict.fromkeys([target_name] + subnames + ["pa.txt"] + (["deep.yaml"] if "src/B/C/deep.yaml" in files else [])))
     for n in names:
         c = rng.random()
         if n == target_name:
@@ -169,7 +181,7 @@ def generate(rng, tier):
         if kind == "file" and rng.random() < 0.2:
             kind = "empty"  # an existing zero-length file is an existing file
         pre[n] = kind
-    dirs = ["home", "run", "out", "src/B/C", "data"]
+    dirs = ["home", "run", "out", "src/B/C", "src/B2", "data"]
     symlinks = {}
     for n, kind in pre.items():
         if kind == "file":
@@ -239,7 +251,7 @@ def generate(rng, tier):
     if "p" in feats and rng.random() < 0.5:
         spc.append("p")
     classes = [rng.choice(["ValueError", "TypeError"]), rng.choice(["RuntimeError", "SimAbort", "OSError"])]
-    return {"parser": spec, "world": w, "load": load, "mutate": mut, "edits": edits, "save": save, "save_path_content": spc, "sweep": {"max_sites": 30 if tier == "quick" else 60, "cb_classes": classes, "os_errno": rng.choice(["EIO", "ENOSPC", "EACCES", "EMFILE"])}, "faults": [], "tier": tier}
+    return {"collide": collide, "parser": spec, "world": w, "load": load, "mutate": mut, "edits": edits, "save": save, "save_path_content": spc, "sweep": {"max_sites": 30 if tier == "quick" else 60, "cb_classes": classes, "os_errno": rng.choice(["EIO", "ENOSPC", "EACCES", "EMFILE"])}, "faults": [], "tier": tier}
 
 
 # ---------------------------------------------------------------------------------------------------
@@ -474,6 +486,8 @@ def execute(sc, ctx):
         ctx.notes["load"] = o.brief()
         return
     STATE.update(parser=p, cfg=o.value)
+    if sc.get("collide") and sc["save"].get("multifile"):
+        sim.probe("destination-names-collide")
     side = root + ".side"
     world.copy_tree(root, side)
     cwd = os.getcwd()
